@@ -430,3 +430,103 @@ func TestChain(t *testing.T) {
 		}
 	})
 }
+
+// TestDerivedChains: several chains built from the default chain (api.BuildDefaultSlotChain) live side by side with the
+// global chain; each gets user slots of its own (any kind, order values below, between, equal to and above the built-in
+// slots'). A request through a chain runs exactly that chain's user slots, in ascending order (insertion order on ties),
+// and the global chain and chains built later run none of them.
+func TestDerivedChains(t *testing.T) {
+	hx.Check(t, hx.N{Quick: 1500, Thorough: 15000}, func(t *rapid.T, c *hx.Case) {
+		hx.Reset(hx.Epoch)
+		for i := 0; i < 64; i++ {
+			base.NewSlotChain().GetPooledContext()
+		}
+		nch := rapid.IntRange(2, 3).Draw(t, "chains")
+		slotIdx = map[string]int{}
+		type ch struct {
+			sc    *base.SlotChain
+			slots []*slot
+		}
+		var chains []*ch
+		total := 0
+		// construction order varies: all chains first and then the slots, or chain by chain
+		allFirst := rapid.Bool().Draw(t, "buildAllChainsFirst")
+		if allFirst {
+			for i := 0; i < nch; i++ {
+				chains = append(chains, &ch{sc: sentinel.BuildDefaultSlotChain()})
+			}
+		}
+		for i := 0; i < nch; i++ {
+			if !allFirst {
+				chains = append(chains, &ch{sc: sentinel.BuildDefaultSlotChain()})
+			}
+			x := chains[i]
+			for k, n := 0, rapid.IntRange(1, 3).Draw(t, "userSlots"); k < n; k++ {
+				s := &slot{kind: rapid.IntRange(0, 2).Draw(t, "kind"), name: fmt.Sprintf("c%ds%d", i, k),
+					order: uint32(rapid.SampledFrom([]int{0, 1, 500, 1000, 1500, 2000, 2500, 3000, 4000, 5000, 6000, 9000}).Draw(t, "order"))}
+				slotIdx[s.name] = total
+				total++
+				x.slots = append(x.slots, s)
+				switch s.kind {
+				case 0:
+					x.sc.AddStatPrepareSlot(s)
+				case 1:
+					x.sc.AddRuleCheckSlot(s)
+				default:
+					x.sc.AddStatSlot(s)
+				}
+			}
+		}
+		scen = [][]int{make([]int, total)} // every user slot behaves
+		want := func(x *ch) (entry, exit []string) {
+			for kind, tag := range []string{"prep:", "check:", "passed:"} {
+				var ss []*slot
+				for _, s := range x.slots {
+					if s.kind == kind {
+						ss = append(ss, s)
+					}
+				}
+				sort.SliceStable(ss, func(a, b int) bool { return ss[a].order < ss[b].order })
+				for _, s := range ss {
+					entry = append(entry, tag+s.name)
+					if kind == 2 {
+						exit = append(exit, "completed:"+s.name)
+					}
+				}
+			}
+			return
+		}
+		run := func(name string, opts []sentinel.EntryOption, wantEntry, wantExit []string) {
+			log = nil
+			e, blk := sentinel.Entry("derived-"+name, opts...)
+			got := append([]string(nil), log...)
+			log = nil
+			if blk != nil || e == nil {
+				t.Fatalf("request through %s blocked: %v", name, blk)
+			}
+			e.Exit()
+			gotExit := append([]string(nil), log...)
+			log = nil
+			if fmt.Sprint(got) != fmt.Sprint(wantEntry) {
+				t.Fatalf("request through %s ran the user slots %v, the chain was given %v (%d chains built from the default chain, all first=%v)", name, got, wantEntry, nch, allFirst)
+			}
+			if fmt.Sprint(gotExit) != fmt.Sprint(wantExit) {
+				t.Fatalf("exit of the request through %s told %v, want %v", name, gotExit, wantExit)
+			}
+		}
+		order := rapid.Permutation([]int{0, 1, 2}[:nch]).Draw(t, "requestOrder")
+		for _, i := range order {
+			we, wx := want(chains[i])
+			run(fmt.Sprint("chain ", i), []sentinel.EntryOption{sentinel.WithSlotChain(chains[i].sc)}, we, wx)
+		}
+		run("the global chain", nil, nil, nil)
+		run("a chain built afterwards", []sentinel.EntryOption{sentinel.WithSlotChain(sentinel.BuildDefaultSlotChain())}, nil, nil)
+		for i, x := range chains {
+			for _, sl := range x.slots {
+				c.Op("chain %d: user slot %s kind=%d order=%d", i, sl.name, sl.kind, sl.order)
+			}
+		}
+		c.Op("%d derived chains (all built first=%v), %d user slots, request order %v", nch, allFirst, total, order)
+		c.NonTrivial()
+	})
+}
